@@ -1,8 +1,31 @@
-(** Property C13 — renders are isolated.
-    OBLIGATIONS: C13_nonvacuous *)
-From GV Require Import Compiler.Compile.
+(** Property C13 — renders are isolated: no state leaks across renders or goroutines.
+    Theorems are about Runtime/Pool.v: the buffer pool protocol of generated templates (GetBuffer at entry, writes
+    to the own buffer, one final write of a copy, deferred Reset+Put), with the steps of any number of renders
+    interleaved arbitrarily and sync.Pool free to hand out any pooled buffer or a new one.
+    "No data race" itself is a statement about the Go memory model and is not expressible in this model: the
+    race-detector runs of the check are supporting evidence for that half (see level_note).
+    OBLIGATIONS: C13_pool_invariant C13_render_isolated C13_nonvacuous *)
+From GV Require Import Runtime.Pool Proofs.RuntimeProofs.
 
+(** every pooled buffer is empty, after any history of complete, failed and unfinished renders *)
+Theorem C13_pool_invariant : forall steps w, pool_inv w -> pool_inv (pool_run steps w).
+Proof. exact pool_inv_run. Qed.
+Print Assumptions C13_pool_invariant.
+
+(** what a render writes is what it writes alone: the concatenation of its own writes (markers removed), for every
+    interleaving with other renders, every earlier history and every choice of the pool *)
+Theorem C13_render_isolated : forall r steps w c ws,
+  pool_inv w -> owned_get r (w_owned w) = None ->
+  steps_of r steps = PGet r c :: ws ++ [PFinish r true] -> Forall (is_write r) ws ->
+  In (r, nuke (writes_of ws)) (w_written (pool_run steps w)).
+Proof. exact render_isolated. Qed.
+Print Assumptions C13_render_isolated.
+
+(** non-vacuity: render 1 interleaved with a failing render 2 and a render 3 that reuses a pooled buffer *)
 Example C13_nonvacuous :
-  contains (lit "defer goht.ReleaseBuffer(__buf)") c_gohtEntry = true.
-Proof. vm_compute. reflexivity. Qed.
+  let steps := [PGet 2 None; PWrite 2 (lit "junk"); PGet 1 (Some 0); PFinish 2 false; PWrite 1 (lit "<p>");
+                PGet 3 (Some 0); PWrite 3 (lit "three"); PWrite 1 (lit "one</p>"); PFinish 3 true; PFinish 1 true] in
+  w_written (pool_run steps world_init) = [(1%nat, lit "<p>one</p>"); (3%nat, lit "three")] /\
+  steps_of 1 steps = PGet 1 (Some 0%nat) :: [PWrite 1 (lit "<p>"); PWrite 1 (lit "one</p>")] ++ [PFinish 1 true].
+Proof. split; vm_compute; reflexivity. Qed.
 Print Assumptions C13_nonvacuous.
